@@ -68,6 +68,12 @@ func (e *Env) Open() error {
 		opts.Config.CacheSnapshotWriteColdDuration = toml.Duration(1000 * time.Hour)
 		opts.Config.CompactFullWriteColdDuration = toml.Duration(1000 * time.Hour)
 	}
+	if e.Background {
+		// stress runs: real background snapshots and compactions, firing often
+		opts.Config.CacheSnapshotMemorySize = toml.Size(48 * 1024)
+		opts.Config.CacheSnapshotWriteColdDuration = toml.Duration(300 * time.Millisecond)
+		opts.Config.CompactFullWriteColdDuration = toml.Duration(1500 * time.Millisecond)
+	}
 	opts.Config.MaxConcurrentCompactions = 2
 	s.EngineOptions = opts
 	if e.Logger != nil {
